@@ -114,6 +114,24 @@ def run(ctx):
             c["id"] = "b%d-%s" % (b, c["id"])
         ctx.log("C: batch %d: %d probes" % (b, len(cases)))
         allres += cc.run_cases(ctx, [(w, cases)], par=450)
+    # statistics epochs rolling over while probes are open: the probes that idle for seconds and the ones whose peer closes after sending
+    # something, on IPv4 and IPv6 phantoms alike, with the statistics printed-and-reset every 40 ms - whatever the bookkeeping does,
+    # nothing may be written, closed early or crash (the crash of ONE handler takes every open connection of the station with it)
+    ecases = [c for c in gen_cases(ctx, 260) if c["peer_close"] or c["stream"]["len"] <= 100][:200]
+    for c in ecases:
+        c["id"] = "epoch-" + c["id"]
+    # ... and the history a per-family bookkeeping slip needs: connections to IPv6 and IPv4 phantoms from the same network, arriving BEFORE and
+    # AFTER epoch roll-overs, sending something, idling, and their peers closing at different times
+    k = 0
+    for dst in ("V6a", "P1", "V6a", "P2", "V6c", "V6a", "P1", "P0"):
+        for L in (1, 10, 64, 500):
+            for start in (0, 70, 160, 300):
+                k += 1
+                c = cc.case("epoch-hist-%d" % k, dst, cc.stream(gen="random", len=L), [], pace_ms=ctx.rng.choice([60, 150, 320]), peer_close=(k % 3 != 0))
+                c["start_ms"] = start
+                ecases.append(c)
+    ctx.log("C: %d probes with statistics epochs rolling over" % len(ecases))
+    allres += cc.run_cases(ctx, [(w, ecases)], par=300, epoch_ms=40)
     summary = cc.validate(ctx, "C03", allres, "c03")
     ctx.log("C: %d traces, %d accepted, %d rejected" % (summary["traces"], summary["accepted"], summary["rejected"]))
     # the deadline must be randomised: the observed first deadlines spread over the 5..10 s window
